@@ -46,7 +46,9 @@ def strategy_(draw, tier):
     return {"comps": comps, "tkind": tkind, "kind": kind, "secs": secs, "raw": raw,
             "fn_paths": fn_paths, "uid": draw(st.sampled_from([1000, 0, 70000])),
             "spell": draw(st.sampled_from(["abs", "abs", "rel", "rel", "slash", "slash", "deepcwd"])),
-            "tz": draw(st.sampled_from([None, None, 9, -8, 5.5])),
+            # (fixed offsets, and POSIX rules with daylight saving time, north and south)
+            "tz": draw(st.sampled_from([None, None, 9, -8, 5.5, "CET-1CEST,M3.5.0,M10.5.0/3",
+                                        "EST5EDT,M3.2.0,M11.1.0", "AEST-10AEDT,M10.1.0,M4.1.0/3"])),
             # the mount point's own path occurs again deeper inside the location (a backup / mirror
             # of the volume kept on the volume)
             "mirror": draw(st.integers(0, 5)) == 0,
